@@ -72,6 +72,18 @@ def run(ctx):
         futs = {ex.submit(xh.call, "c15.py", "fixpoint", {"lang": lang, "automaton": i}, {"cond_timeout": T, "path_timeout": 30.0}, T * 12): (lang, i, a) for lang, i, a in tasks}
         for fut in cf.as_completed(futs):
             results[futs[fut][:2]] = (futs[fut][2], fut.result())
+    # fallback for automata whose unbounded-text conditions CrossHair could not decide: the same fixpoint with the token text drawn from a finite pool
+    retry = [(lang, i, a) for (lang, i), (a, res) in sorted(results.items()) if (res.get("value") or {}).get("status") == "inconclusive"]
+    if retry:
+        with cf.ThreadPoolExecutor(max_workers=ctx.nproc) as ex:
+            futs = {ex.submit(xh.call, "c15.py", "fixpoint", {"lang": lang, "automaton": i}, {"cond_timeout": T, "path_timeout": 30.0, "pool": True}, T * 12): (lang, i, a) for lang, i, a in retry}
+            for fut in cf.as_completed(futs):
+                lang, i, a = futs[fut]
+                v2 = fut.result().get("value")
+                if v2 and v2.get("status") == "ok":
+                    ctx.notes.append(f"{lang}:pair{a['pair']}.{a['part']}: unbounded token text undecided ({results[(lang, i)][1]['value']['detail'][:80]}); decided over a {v2['text'][:60]}...")
+                    ctx.inconclusive_(f"{lang}:pair{a['pair']}.{a['part']}:unbounded-text", "token text as an unbounded string was not decided by the solver; the finite-pool fallback was decided instead")
+                    results[(lang, i)] = (a, fut.result())
     states = transitions = 0
     accepting_chain = {}
     for (lang, i), (a, res) in sorted(results.items()):
@@ -95,7 +107,7 @@ def run(ctx):
         transitions += v["transitions"]
         ctx.extra.setdefault("automata", []).append({"automaton": ident, "dfa_states": v["states"], "reachable_configurations": len(v["known"]), "closure_iterations": v["closure_iterations"], "ambiguous": len(v["ambiguous"]), "wall_s": round(v["wall"], 1)})
         if not v["ambiguous"]:
-            ctx.discharge(ident, 0, v["wall"], {"automaton": ident, "reachable configurations": v["known"], "result": "closure confirmed, no ambiguous step over all tokens/depths"})
+            ctx.discharge(ident, 0, v["wall"], {"automaton": ident, "reachable configurations": v["known"], "result": "closure confirmed, no ambiguous step over all token kinds/depths; token text: " + v.get("text", "unbounded")[:80]})
             continue
         ctx.solver_s += v["wall"]
         for amb in v["ambiguous"]:
